@@ -1014,9 +1014,12 @@ class IMAPUserServer:
         # whatever may be at that place in the file system.
         #
         # if not self.folder_exists(name):
+        # (Nor is the mail directory itself - `.`, `a/..` - a mailbox.)
+        #
         if (
             not name.strip()
             or not mbox_name_is_inside(name)
+            or os.path.normpath(name) == os.curdir
             or not self.folder_exists(name)
         ):
             raise NoSuchMailbox(f"No such mailbox: '{name}'")
